@@ -509,7 +509,7 @@ Proof.
   pose proof (lookup_dep_equiv s1 s2 F i) as L.
   destruct (DagAst.lookup s1 i) as [a|], (DagAst.lookup s2 i) as [b|]; try contradiction; [|reflexivity].
   rewrite IH. destruct L as [Es [Eg [El [En _]]]].
-  unfold wrap, guard_node. rewrite Es, Eg, El, En. reflexivity.
+  unfold wrap, wrap_g, guard_node. rewrite Es, Eg, El, En. reflexivity.
 Qed.
 
 Theorem lower_dep_equiv r g skip s1 s2 : Forall2 dep_equiv s1 s2 ->
